@@ -59,9 +59,22 @@ func (e *kvElection) heartbeatLoop(ctx context.Context) {
 				}
 			}
 
+			// Take claim, revision and token in one snapshot under the mutex.
+			// Followers store observed revisions (observeLeader) only under the
+			// write lock and only while not leader, so a revision read together
+			// with a standing claim is the revision of this instance's own latest
+			// write. Without this, a leader deposed during the health check above
+			// could pick up its successor's revision here and overwrite the
+			// successor's record.
+			e.mu.RLock()
+			stillLeader := e.isLeader.Load()
 			currentRev := e.revision.Load()
-
 			token := e.Token()
+			e.mu.RUnlock()
+			if !stillLeader {
+				return
+			}
+
 			payload := leadershipPayload{
 				ID:       e.cfg.InstanceID,
 				Token:    token,
